@@ -12,6 +12,14 @@ class Entry:
     self.api, self.kind, self.selector = api, kind, selector
 
 
+class HookError(Exception):
+  pass
+
+
+class Marker(Exception):
+  pass
+
+
 class Session:
   """One gin process state (fresh import) plus the probe objects registered in it."""
 
@@ -198,11 +206,85 @@ class Session:
           return {'mismatch': [list(s), inside]}
     return inside
 
+  def key_for(self, ks):
+    scope, sel, arg = ks['scope'], ks['sel'], ks['arg']
+    form = ks.get('_form', 'str')
+    if form == 'tuple':
+      return (scope, sel, arg)
+    return (scope + '/' if scope else '') + sel + '.' + arg
+
+  def op_hook(self, op):
+    gin = self.gin
+
+    def hook(config):
+      del config
+      if op['raises']:
+        raise HookError('hook raises')
+      if op['ret'] is None:
+        return None
+      return {self.key_for(ks): decode(v, gin) for ks, v in op['ret']}
+
+    gin.config.register_finalize_hook(hook)
+
+  def op_unlock(self, op):
+    outs = []
+    try:
+      with self.gin.unlock_config():
+        for b in op['body']:
+          outs.append(self.run_op(b))
+        if op['raises']:
+          raise Marker()
+    except Marker:
+      pass
+    return {'body': outs}
+
+  def op_register_class_with_methods(self, op):
+    """A class whose method(s) were registered with @gin.register inside the class body."""
+    gin = self.gin
+    leaf = op['name']
+    g = {'__name__': op['_pymodule'], 'gin': gin, '_rec': self._rec}
+    msrc = ''
+    for m in op['_method_ops']:
+      params = ', '.join(['self'] + [n if d is None else f'{n}=_d_{m["name"]}_{n}' for n, d in m['sig']['pos'][1:]])
+      for n, d in m['sig']['pos'][1:]:
+        if d is not None:
+          g[f'_d_{m["name"]}_{n}'] = decode(d['v'], gin)
+      names = [n for n, _ in m['sig']['pos'][1:]]
+      rec = '_rec(%d, %r, [%s], (), {})' % (m['obj'], m['_selector'], ', '.join(f'({n!r}, {n})' for n in names))
+      msrc += f'  @gin.register\n  def {m["name"]}({params}):\n    return {rec}\n'
+    src = f'class {leaf}:\n  """doc"""\n  def __init__(self):\n    pass\n{msrc}'
+    exec(compile(src, f'<probe {leaf}>', 'exec'), g)  # pylint: disable=exec-used
+    cls = g[leaf]
+    for m in op['_method_ops']:
+      self.entries[m['obj']] = Entry(m['obj'], getattr(cls, m['name']), None, 'method', 'fn', m['_selector'])
+    returned = gin.external_configurable(cls) if op['_api'] == 'external' else gin.register(cls)
+    self.entries[op['obj']] = Entry(op['obj'], cls, returned, op['_api'], 'init', op['_selector'])
+
   def run_op(self, op):
     name = op['op']
     try:
       if name == 'register':
-        r = self.op_register(op)
+        if op.get('_skip_impl'):
+          return {'ok': None}
+        r = self.op_register_class_with_methods(op) if op.get('_method_ops') else self.op_register(op)
+      elif name == 'hook':
+        r = self.op_hook(op)
+      elif name == 'finalize':
+        r = self.gin.finalize()
+      elif name == 'unlock':
+        r = self.op_unlock(op)
+      elif name == 'clear':
+        r = self.gin.clear_config(clear_constants=op['constants'])
+      elif name == 'constant':
+        r = self.gin.constant(op['name'], decode(op['val'], self.gin))
+      elif name == 'interactive':
+        r = self.gin.enter_interactive_mode() if op['on'] else self.gin.exit_interactive_mode()
+      elif name == 'locked':
+        r = bool(self.gin.config_is_locked())
+      elif name == 'registry':
+        r = sorted(k for k, _ in self.cfg._REGISTRY.items())  # pylint: disable=protected-access
+      elif name == 'constants':
+        r = sorted(k for k, _ in self.cfg._CONSTANTS.items())  # pylint: disable=protected-access
       elif name == 'call':
         return self.op_call(op)
       elif name == 'bind':
@@ -234,15 +316,24 @@ def run_impl(case):
   return {'out': [s.run_op(op) for op in case['ops']]}
 
 
+def _strip_private(x):
+  if isinstance(x, dict):
+    return {k: _strip_private(v) for k, v in x.items() if not k.startswith('_')}
+  if isinstance(x, list):
+    return [_strip_private(v) for v in x]
+  return x
+
+
 def to_driver(case, impl):
-  ops = [{k: v for k, v in op.items() if not k.startswith('_')} for op in case['ops']]
-  return {'dom': 'gin', 'ops': ops}
+  return {'dom': 'gin', 'ops': [_strip_private(op) for op in case['ops']]}
 
 
 def strip(o):
   """Drops the harness-only fields of an implementation observation before comparing."""
   if isinstance(o, dict) and 'err' in o:
     return {k: v for k, v in o.items() if k in ('err', 'missing')}
+  if isinstance(o, dict) and isinstance(o.get('ok'), dict) and 'body' in o['ok']:
+    return {'ok': {'body': [strip(b) for b in o['ok']['body']]}}
   return o
 
 
@@ -252,6 +343,6 @@ def compare(case, impl, model):
     return f'driver error: {model}'
   for k, (x, y) in enumerate(zip(a, b)):
     if strip(x) != y:
-      op = {kk: vv for kk, vv in case['ops'][k].items() if kk != 'sig'}
+      op = {kk: vv for kk, vv in case['ops'][k].items() if kk not in ('sig', '_method_ops')}
       return f'op {k} {op}: impl {strip(x)} model {y}'
   return None
